@@ -202,7 +202,13 @@ def window_obligations(repo: Repo, run: Run, wanted, why: str) -> None:
     record.  That is the pairing machine's contract (C04 K3/K4); its obligations are necessary conditions here too."""
     from . import c04
     probe = Run("C04", run.tier, run.repo_root)
-    c04.check(repo, probe)
+    try:
+        c04.check(repo, probe)
+    except AnalysisError as ex:
+        # the pairing machine is not decided: this check cannot rely on the window contract (exit 2 in the end), but what its
+        # own rules find in structures they do recognise is still judged and reported first
+        run.floor_failures.append(f"{run.prop}/R0: the window contract taken from C04 is not decided: {str(ex)[:200]}")
+        return
     for o in probe.obligations:
         if o["rule"] in wanted:
             run.ob("R0", o["module"], o["scope"], f"window contract {o['rule']}: {o['construct']}", o["ok"],
@@ -215,7 +221,11 @@ def lookup_obligations(repo: Repo, run: Run, why: str) -> None:
     the assembler are necessary conditions here; where C08 cannot decide the assembler this check cannot rely on it either."""
     from . import c08
     probe = Run("C08", run.tier, run.repo_root)
-    c08.check(repo, probe)          # an AnalysisError propagates: the assembler is not decided
+    try:
+        c08.check(repo, probe)
+    except AnalysisError as ex:     # the assembler is not decided: exit 2 in the end, own rules are judged first
+        run.floor_failures.append(f"{run.prop}/R0: the lookup-assembly contract taken from C08 is not decided: {str(ex)[:200]}")
+        return
     n = 0
     for o in probe.obligations:
         if o["rule"] == "R1":
